@@ -14,13 +14,13 @@ def gen_scale_arg(rng, ndim, polar):
     r = rng.random()
     vals = [-2.0, -1.0, -0.5, 0.5, 2.0, 1.5, 4.0, 1.0, -0.25]
     if polar or r < 0.45:
-        return ['s', float(rng.choice(vals))]
+        return ['s', float(rng.choice(vals)), str(rng.choice(G.SCALAR_FORMS))]
     f = [float(rng.choice(vals)) for _ in range(ndim)]
     if rng.random() < 0.3:
         k = int(rng.integers(0, ndim))
         f = [1.0] * ndim
         f[k] = float(rng.choice([-1.0, 2.0, 0.5]))
-    return ['v', f]
+    return ['v', f, str(rng.choice(G.VECTOR_FORMS))]
 
 
 def gen_shift(rng, ndim):
@@ -47,6 +47,8 @@ def gen_case(rng, big):
             spec = G.gen_spec(rng, maxn=maxn)
             if shared:
                 G.make_shared(rng, spec)
+            elif rng.random() < 0.5:
+                G.gen_forms(rng, spec)
         if first is None:
             first = spec
         ops.append(['new', spec])
@@ -70,15 +72,15 @@ def gen_case(rng, big):
             ops.append(['rt', i, str(rng.choice(['copy', 'dict', 'pickle']))])
             meta.append(meta[i])
         elif op == 'rebuild':
-            asint = bool(rng.random() < 0.5)
+            asint = [False, False, 'int64', 'int32', 'int16', 'pyintlist'][int(rng.integers(0, 6))]
             ops.append(['rebuild', i, asint])
-            meta.append((sysm, ndim, isint or asint))
+            meta.append((sysm, ndim, isint or bool(asint)))
         elif op in ('scaled', 'scale'):
             ops.append([op, i, gen_scale_arg(rng, ndim, sysm == 'p')])
             if op == 'scaled':
                 meta.append(meta[i])
         elif op in ('shifted', 'shift'):
-            ops.append([op, i, gen_shift(rng, ndim)])
+            ops.append([op, i, gen_shift(rng, ndim), str(rng.choice(G.VECTOR_FORMS))])
             if op == 'shifted':
                 meta.append(meta[i])
         else:
@@ -92,7 +94,7 @@ def twin_of(rng, spec):
     """A grid that differs from `spec` in exactly one aspect (or in none)."""
     import copy
     t = copy.deepcopy(spec)
-    what = str(rng.choice(['same', 'system', 'kind', 'value', 'size', 'weights', 'int']))
+    what = str(rng.choice(['same', 'system', 'kind', 'value', 'size', 'weights', 'int', 'forms', 'forms']))
     t['_twin'] = what
     if what == 'system' and len(t['data'][1] if t['kind'] == 'reg' else t['data']) == 2:
         t['sys'] = 'p' if t['sys'] == 'c' else 'c'
@@ -129,7 +131,12 @@ def twin_of(rng, spec):
     elif what == 'weights':
         t['w'] = 2.5
     elif what == 'int':
-        t['int'] = G.spec_integral(t)
+        t['int'] = G.int_form(rng, t) if G.spec_integral(t) else False
+        t.pop('forms', None)
+    elif what == 'forms':
+        # identical values, other dtypes / containers for every constructor argument
+        t.pop('shared', None)
+        G.gen_forms(rng, t)
     return t
 
 
@@ -156,17 +163,19 @@ def apply_real(grids, op, pool=None, shared=False):
     kind = op[0]
     try:
         if kind == 'new':
-            grids.append(G.build(op[1], pool))
+            g = G.build(op[1], pool)
+            G.validate(g)           # a grid that cannot report its own coordinates / points counts as a failed construction
+            grids.append(g)
         elif kind == 'rt':
             grids.append(G.roundtrip(grids[op[1]], op[2]))
         elif kind == 'rebuild':
             s = G.snap(grids[op[1]])
             spec = {'sys': s['sys'], 'kind': s['kind'], 'data': s['data'], 'w': s['w'], 'int': False}
-            spec['int'] = bool(op[2]) and G.spec_integral(spec)
+            spec['int'] = (op[2] if isinstance(op[2], str) else 'int64') if (op[2] and G.spec_integral(spec)) else False
             spec['shared'] = bool(shared)
             grids.append(G.build(spec, pool))
         elif kind in ('scaled', 'scale'):
-            a = op[2][1] if op[2][0] == 's' else np.array(op[2][1])
+            a = G.op_arg(op[2])
             import warnings
             with warnings.catch_warnings():
                 warnings.simplefilter('ignore')
@@ -177,7 +186,7 @@ def apply_real(grids, op, pool=None, shared=False):
                     if r is not grids[op[1]]:
                         return 'err:not-self'
         elif kind in ('shifted', 'shift'):
-            b = np.array(op[2])
+            b = G.as_form(op[2], op[3] if len(op) > 3 else 'float64')
             if kind == 'shifted':
                 grids.append(grids[op[1]].shifted(b))
             else:
@@ -273,7 +282,10 @@ def oracle(steps):
             src = before[op[1]] if opname != 'new' else None
             undefined_weights = (opname in ('scale', 'scaled') and src is not None and src['sys'] == 'c' and src['kind'] == 'sep'
                                  and src['w'] is None and any(len(a) < 2 for a in src['data']))
-            if not undefined_weights:
+            if opname == 'new':
+                bad.append(('new-raises', 'constructing (or reading the points of) a %s %s grid with argument forms %r / int=%r raised %s' % (
+                    op[1]['sys'], op[1]['kind'], op[1].get('forms'), op[1].get('int'), status[4:])))
+            elif not undefined_weights:
                 bad.append(('op-raises %s' % opname, '%s raised %s on a %s %s grid' % (
                     opname, status[4:], src['sys'] if src else '-', src['kind'] if src else '-')))
             # state must be unchanged by the failed operation
@@ -482,6 +494,10 @@ def run(ctx):
                 'unstructured; 1-3 D; dyadic values; optional twin differing in exactly one of system/kind/value/size/weights/'
                 'dtype; in 40 % of the cases the constructor inputs come from a pool of caller-owned arrays in which equal arrays are ONE '
                 'object: same array for several axes, for delta and zero, for weights and a coordinate column, for several grids), '
+                'in half of the other cases every constructor argument gets a random dtype / container: dims as int8..uint64, Python '
+                'ints, tuple, float-valued, scalar; delta/zero/axes/columns as float64/float32/longdouble/list/tuple/Python or NumPy '
+                'scalar/0-d array; weights likewise; twins with int64/int32/int16/int8/bool/Python-int coordinates; scale/shift '
+                'arguments as Python/NumPy scalars, 0-d, one-element arrays/lists, float32/longdouble arrays, lists, tuples), '
                 'then copy / to_dict+from_dict / pickle round trips, independent reconstruction (optionally with '
                 'integer dtype), scaled/shifted/reversed and their in-place forms. After EVERY operation all live grids are '
                 're-read: snapshots (aliasing), the full == matrix, and all hashes. Oracle: == must coincide with identity of '
